@@ -950,6 +950,18 @@ func (g *sgen) connOffence(kind int) {
 		sid := g.sid()
 		g.frame(frameBytes(1, 4, sid, g.enc.block(g.p, []kv{{k: ":method", v: "POST"}, {k: ":scheme", v: "https"}, {k: ":path", v: "/"}})))
 		g.frame(frameBytes(1, 4, sid, []byte{0xff, 0xff, 0xff, 0xff, 0xff})) // index past the table
+	case 21:
+		// SETTINGS_INITIAL_WINDOW_SIZE raised while a stream's send window is already at the top (RFC 7540 6.9.2: a
+		// change that makes any stream window exceed 2^31-1 is a connection error FLOW_CONTROL_ERROR). Every frame
+		// but the last is legal: the window is set to 1000, a stream WINDOW_UPDATE takes it to 2^31-2, a first
+		// SETTINGS change to exactly 2^31-1 (still fine), the second one beyond
+		g.settings(4, 1000)
+		sid := g.sid()
+		g.frame(frameBytes(1, 4, sid, g.enc.block(g.p, []kv{{k: ":method", v: "POST"}, {k: ":scheme", v: "https"}, {k: ":path", v: "/top"}})))
+		g.windowUpdate(sid, 1<<31-1-1000-1)
+		g.settings(4, 1001)
+		g.ping(5)
+		g.settings(4, 1002)
 	}
 }
 
@@ -986,7 +998,7 @@ func genSrvGoAway(p *prng, thorough bool, w *bufio.Writer) {
 				g.rst(sid, 8)
 			}
 		}
-		kind := p.intn(21)
+		kind := p.intn(22)
 		g.line("#connoffence %d", kind)
 		g.gaugeEach = true
 		g.connOffence(kind)
